@@ -10,6 +10,13 @@ static int asn1c_compile_expr(arg_t *arg, const asn1c_ioc_table_and_objset_t *);
 static int asn1c_attach_streams(asn1p_expr_t *expr);
 static int asn1c_detach_streams(asn1p_expr_t *expr);
 
+/*
+ * Number of expressions (top level, specialization or embedded component)
+ * that could not be compiled. The callers of an embedded component's
+ * compilation (EMBED) drop its status; the exit status must not.
+ */
+static int compile_failures;
+
 int
 asn1_compile(asn1p_t *asn, const char *datadir, const char *destdir, enum asn1c_flags flags,
 		int argc, int optc, char **argv) {
@@ -19,6 +26,7 @@ asn1_compile(asn1p_t *asn, const char *datadir, const char *destdir, enum asn1c_
 	int ret;
 
 	c_name_clash_finder_init();
+	compile_failures = 0;
 
 	/*
 	 * Initialize target language.
@@ -61,6 +69,11 @@ asn1_compile(asn1p_t *asn, const char *datadir, const char *destdir, enum asn1c_
 			asn1_namespace_free(arg->ns);
 			arg->ns = 0;
 		}
+	}
+
+	if(compile_failures) {
+		/* An embedded component failed: already reported (FATAL) */
+		return -1;
 	}
 
 	if(c_name_clash(arg)) {
@@ -130,7 +143,12 @@ asn1c_compile_expr(arg_t *arg, const asn1c_ioc_table_and_objset_t *opt_ioc) {
 			}
 			arg->expr = expr;	/* Restore */
 		} else {
+			int saved_target = arg->target->target;
 			ret = type_cb(arg);
+			if(ret == -1) {
+				/* The emitter may have bailed out inside a REDIR() */
+				arg->target->target = saved_target;
+			}
 			if(arg->target->destination[OT_TYPE_DECLS]
 					.indent_level == 0)
 				OUT(";\n");
@@ -156,6 +174,7 @@ asn1c_compile_expr(arg_t *arg, const asn1c_ioc_table_and_objset_t *opt_ioc) {
 	}
 
 	if(ret == -1) {
+		compile_failures++;
 		FATAL("Cannot compile \"%s\" (%x:%x) at line %d",
 			arg->expr->Identifier,
 			arg->expr->expr_type,
